@@ -390,11 +390,19 @@ func (k *Keeper) ApplyMessageWithConfig(ctx sdk.Context,
 
 	if contractCreation {
 		// take over the nonce management from evm:
-		// - reset sender's nonce to msg.Nonce() before calling evm.
-		// - increase sender's nonce by one no matter the result.
+		// - reset sender's nonce to msg.Nonce() before calling evm, so that the contract address derives from it.
+		// - afterwards the nonce is msg.Nonce()+1 no matter the result, unless the sequence found on entry is
+		//   already higher: the ante handler advances it past every message of the transaction, and a creation
+		//   followed by further messages of the same sender must not wind it back (that would allow those
+		//   messages to be replayed).
+		entryNonce := stateDB.GetNonce(sender.Address())
 		stateDB.SetNonce(sender.Address(), msg.Nonce())
 		ret, _, leftoverGas, vmErr = evm.Create(sender, msg.Data(), leftoverGas, msg.Value())
-		stateDB.SetNonce(sender.Address(), msg.Nonce()+1)
+		newNonce := msg.Nonce() + 1
+		if entryNonce > newNonce {
+			newNonce = entryNonce
+		}
+		stateDB.SetNonce(sender.Address(), newNonce)
 	} else {
 		ret, leftoverGas, vmErr = evm.Call(sender, *msg.To(), msg.Data(), leftoverGas, msg.Value())
 	}
